@@ -284,6 +284,10 @@ pub fn run_type<T: Reg>(cx: &mut Cx, name: &str) {
 				cx.oracle.check(matches!(&r2, DRes::Ok(w, c) if w.same(&v) && *c == enc.len()), "derived-roundtrip", || rp.clone());
 				for _ in 0..3 {
 					let (m, fam) = mutate(&mut cx.rng, &enc, &[]);
+					if !safe_input::<T>(&m) {
+						cx.stats.bump("skipped/zero-wire-hostile-count");
+						continue;
+					}
 					let r3 = push_dec::<T>(cx, name, &desc, &m, true, fam);
 					cx.oracle.check(!matches!(r3, DRes::Panic), "decode-panic", || format!("{name}\tdec\t1\t{}", hex(&m)));
 				}
@@ -294,6 +298,10 @@ pub fn run_type<T: Reg>(cx: &mut Cx, name: &str) {
 				let mut inp = vec![b0];
 				inp.extend_from_slice(&tail[1.min(tail.len())..]);
 				inp.extend_from_slice(&[0, 0, 0, 0]);
+				if !safe_input::<T>(&inp) {
+					cx.stats.bump("skipped/zero-wire-hostile-count");
+					continue;
+				}
 				push_dec::<T>(cx, name, &desc, &inp, true, "every-first-byte");
 			}
 		},
